@@ -123,7 +123,7 @@ func slug(s string) string {
 
 // judgeObserver reports every SMTPError that passed through Fields() since the
 // case started whose basic and enhanced code classes disagree.
-func judgeObserver(r *rep.Reporter, c *rep.Case, where string) {
+func judgeObserver(r *rep.Reporter, c *rep.Case, where string, relayed ...map[string]bool) {
 	obs := verifkit.SMTPErrorObservations()
 	total := verifkit.SMTPErrorTotal()
 	r.Count("observer_smtp_errors", int64(total))
@@ -132,13 +132,25 @@ func judgeObserver(r *rep.Reporter, c *rep.Case, where string) {
 		if o.Code/100 == o.Enh[0] && (o.Enh[0] == 4 || o.Enh[0] == 5) {
 			continue
 		}
+		if len(relayed) > 0 && relayed[0][fmt.Sprintf("%d %v", o.Code, o.Enh)] {
+			// a copy of what the scripted remote server answered (no or foreign-class
+			// enhanced code): relayed, not generated, by maddy
+			r.Count("observer_relayed_remote_pairs", int64(o.Count))
+			continue
+		}
 		if wasInjected(o.Code, o.Enh, o.Msg) {
 			// built by the harness (an annotation with a basic code only), not by maddy
 			r.Count("observer_injected_basic_code_only", int64(o.Count))
 			continue
 		}
 		src := "check=" + o.Check + "/target=" + o.Target
-		c.Violation(fmt.Sprintf("observer/class-mismatch/%d/%d.%d.%d/%s/%s", o.Code, o.Enh[0], o.Enh[1], o.Enh[2], src, slug(o.Msg)),
+		sig := fmt.Sprintf("observer/class-mismatch/%d/%d.%d.%d/%s/%s", o.Code, o.Enh[0], o.Enh[1], o.Enh[2], src, slug(o.Msg))
+		if len(relayed) > 0 {
+			// codes and texts come from the generated remote replies: keep the
+			// signature free of that data
+			sig = fmt.Sprintf("observer/class-mismatch/remote-layer/code-class-%d/enhanced-class-%d", o.Code/100, o.Enh[0])
+		}
+		c.Violation(sig,
 			fmt.Sprintf("an SMTPError with code %d and enhanced code %d.%d.%d (%q) was converted for reporting (%s workload)", o.Code, o.Enh[0], o.Enh[1], o.Enh[2], o.Msg, where), o)
 	}
 }
